@@ -253,6 +253,9 @@ def opValidate : P (List String) := do
   let _init ← tok
   let nStarts ← nat; let nEnds ← nat; let nWeights ← nat; let nAffinity ← nat
   let nDistinct ← nat; let uSize ← nat; let r ← nat; let maxIt ← nat; let nConv ← nat
+  -- optional: the out-membership container was moved from (its values are gone: it holds 0 elements, whatever its dimensions say)
+  let moved ← optNat 0
+  let uSize := if moved = 1 then 0 else uSize
   match validate { assort, nStarts, nEnds, nWeights, nAffinity, nDistinct, uSize, r, maxIt, nConv } with
   | .ok _ => pure [kv "err" "0"]
   | .error e => pure [kv "err" (toString e.code)]
